@@ -256,6 +256,11 @@ func (c *Ctx) Finish() {
 	}
 	os.MkdirAll(filepath.Join(verifRoot, "replays"), 0o755)
 	os.MkdirAll(filepath.Join(verifRoot, "evidence"), 0o755)
+	if old, _ := filepath.Glob(filepath.Join(verifRoot, "replays", fmt.Sprintf("%s-%d-*.json", c.Prop, c.Seed))); old != nil {
+		for _, f := range old {
+			os.Remove(f)
+		}
+	}
 	exit := 0
 	nViol := 0
 	seenSig := map[string]bool{}
